@@ -581,7 +581,7 @@ func historyScenario(x *explore.X, n int) {
 
 func TestC06(t *testing.T) {
 	s := explore.NewSuite(t, "C06", "exploration",
-		"credential table = every subset of size <= 3 of 8 entries (exact host:port, *:port, host:*, *:*, other host, entries matching the upstream proxy) (93) x upstream(none, static URL with userinfo, static URL resolved through the table, PAC-selected) x target/kind(6: implicit/explicit port 80, CONNECT, inside MITM, other host) x client fields(12: Proxy-Authorization once/twice/nominated by Connection/mixed case, client Authorization Basic / Bearer / Digest / Negotiate / malformed Basic / lower-case scheme); deviation-bounded (D=2 quick) and full product table x upstream x target with client fields as the only bounded dimension (D=1 quick, unbounded thorough); every byte received by the origin, by the upstream proxy and inside the tunnel is searched for the base64 token of every credential, each occurrence must be where expectCreds allows, and expected credentials must be present; plus (concurrent-lookups, Engine T) the credentials matcher of one proxy asked by 2-3 connections at once about 4 targets (after 0-1 earlier lookups), credentials.go rebuilt with a scheduling point before every statement, every interleaving within 2 (quick) / 3 (thorough) preemptions: every lookup returns its own target's entry; plus (history) ONE proxy (with and without an upstream proxy whose credentials come from the table) and EVERY sequence of 2 (quick) / 4 (thorough) requests out of 9 (an origin named by an IPv6 literal with its own table entry, same host on two ports, another host on two ports, the client's own Authorization, a CONNECT through the upstream proxy, a CONNECT whose upstream connection is reset as soon as it is established, the same host name under https:// with the implied port 443): each request carries the credentials of its own target whatever was requested before")
+		"credential table = every subset of size <= 3 of 8 entries (exact host:port, *:port, host:*, *:*, other host, entries matching the upstream proxy) (93) x upstream(none, static URL with userinfo, static URL resolved through the table, PAC-selected) x target/kind(6: implicit/explicit port 80, CONNECT, inside MITM, other host) x client fields(12: Proxy-Authorization once/twice/nominated by Connection/mixed case, client Authorization Basic / Bearer / Digest / Negotiate / malformed Basic / lower-case scheme); deviation-bounded (D=2 quick) and full product table x upstream x target with client fields as the only bounded dimension (D=1 quick, unbounded thorough); every byte received by the origin, by the upstream proxy and inside the tunnel is searched for the base64 token of every credential, each occurrence must be where expectCreds allows, and expected credentials must be present; plus (concurrent-lookups, Engine T) the credentials matcher of one proxy asked by 2-3 connections at once about 4 targets (after 0-1 earlier lookups), credentials.go rebuilt with a scheduling point before every statement, every interleaving within 2 (quick) / 3 (thorough) preemptions: every lookup returns its own target's entry; plus (history) ONE proxy (with and without an upstream proxy whose credentials come from the table) and EVERY sequence of 2 (quick) / 4 (thorough) requests out of 9 (an origin named by an IPv6 literal with its own table entry, same host on two ports, another host on two ports, the client's own Authorization, a CONNECT through the upstream proxy, a CONNECT whose upstream connection is reset as soon as it is established, the same host name under https:// with the implied port 443): each request carries the credentials of its own target whatever was requested before; (round 9) the full product runs with one deviation in the client fields in the quick tier too (a CONNECT relayed through the upstream proxy whose client sent Proxy-Authorization)")
 	s.Assume = []string{"secrets are searched in their Basic (base64) form and the harness terminates TLS at the scripted origin", "simnet owns every connection"}
 	s.Add(explore.Scenario{Name: "bounded", Remote: true, Tiers: []string{"quick"}, MaxDev: map[string]int{"quick": 2},
 		Run: func(x *explore.X) { world.Run(t, x, func() { scenario(x, false) }) }})
